@@ -365,6 +365,7 @@ type grammarInfo struct {
 	dataSize   int
 	records    int
 	defs, data int
+	recs       []wireRec // the data records, field by field (see props_c05wire.go)
 }
 
 // checkGrammar parses bytes under the FIT record grammar without using the library.
@@ -393,7 +394,12 @@ func checkGrammar(b []byte) (grammarInfo, error) {
 	if c := binary.LittleEndian.Uint16(b[hs+ds:]); c != ownCRC(b[:hs+ds]) {
 		return gi, fmt.Errorf("file crc")
 	}
-	type def struct{ size int }
+	type def struct {
+		size   int
+		global int
+		big    bool
+		fields []wireField
+	}
 	var defs [16]*def
 	p := hs
 	end := hs + ds
@@ -413,11 +419,17 @@ func checkGrammar(b []byte) (grammarInfo, error) {
 				return gi, fmt.Errorf("arch")
 			}
 			nf := int(b[p+4])
-			p += 5
-			if p+3*nf > end {
+			if p+5+3*nf > end {
 				return gi, fmt.Errorf("truncated field definitions")
 			}
 			total := 0
+			nd := &def{big: arch == 1}
+			if nd.big {
+				nd.global = int(binary.BigEndian.Uint16(b[p+2 : p+4]))
+			} else {
+				nd.global = int(binary.LittleEndian.Uint16(b[p+2 : p+4]))
+			}
+			p += 5
 			for i := 0; i < nf; i++ {
 				size, bt := int(b[p+3*i+1]), b[p+3*i+2]
 				bs, ok := btSize[bt]
@@ -428,12 +440,14 @@ func checkGrammar(b []byte) (grammarInfo, error) {
 					return gi, fmt.Errorf("field size %d not a multiple of base size %d", size, bs)
 				}
 				total += size
+				nd.fields = append(nd.fields, wireField{num: int(b[p+3*i]), size: size, bt: bt})
 			}
 			p += 3 * nf
 			if h&0x20 != 0 {
 				return gi, fmt.Errorf("developer fields in encoder output")
 			}
-			defs[h&0x0F] = &def{total}
+			nd.size = total
+			defs[h&0x0F] = nd
 			gi.defs++
 		default:
 			d := defs[h&0x0F]
@@ -443,6 +457,14 @@ func checkGrammar(b []byte) (grammarInfo, error) {
 			if p+d.size > end {
 				return gi, fmt.Errorf("data record overruns the data area")
 			}
+			rec := wireRec{global: d.global, big: d.big}
+			q := p
+			for _, f := range d.fields {
+				f.raw = b[q : q+f.size]
+				q += f.size
+				rec.fields = append(rec.fields, f)
+			}
+			gi.recs = append(gi.recs, rec)
 			p += d.size
 			gi.data++
 		}
